@@ -28,11 +28,15 @@ type realClient struct {
 	tokenPeer map[string]peer.ID // hostname -> server id established by a handshake the oracle justified
 	seen      map[string]bool    // challenge-server values this client sent in earlier calls
 	calls     int
+	// bearer token -> the server identity PROVEN (signature over this client's challenge of that call) in
+	// the call in which the token was issued, whether or not that call ended in an error
+	tokenIssuedUnder map[string]peer.ID
+	hostless         bool // requests are built by hand, without Request.Host (the URL names the host)
 }
 
 func newRealClient(sc *scen, id *ident, clientTTL time.Duration) *realClient {
 	return &realClient{sc: sc, id: id, auth: &httpauth.ClientPeerIDAuth{PrivKey: id.priv, TokenTTL: clientTTL},
-		tokenPeer: map[string]peer.ID{}, seen: map[string]bool{}}
+		tokenPeer: map[string]peer.ID{}, seen: map[string]bool{}, tokenIssuedUnder: map[string]peer.ID{}}
 }
 
 // wire is the round tripper between the real client and the world. handler produces the response (by
@@ -45,7 +49,17 @@ type wire struct {
 
 func (w *wire) RoundTrip(req *http.Request) (*http.Response, error) {
 	authz := append([]string(nil), req.Header.Values("Authorization")...)
+	if req.Host == "" && req.URL != nil {
+		// what net/http's transport does with a request that carries no explicit Host
+		req = req.Clone(req.Context())
+		req.Host = req.URL.Host
+	}
 	resp := w.handler(len(w.log), req)
+	if resp == nil {
+		// the round trip fails (connection broke): nothing comes back
+		w.log = append(w.log, exchange{authz: authz, status: 0, hdr: http.Header{}, note: "round trip failed"})
+		return nil, fmt.Errorf("verif wire: connection reset during round trip %d", len(w.log)-1)
+	}
 	w.log = append(w.log, exchange{authz: authz, status: resp.StatusCode, hdr: resp.Header.Clone()})
 	return resp, nil
 }
@@ -84,6 +98,9 @@ func (rc *realClient) do(w *wire, host string, getBody bool, kind, desc string) 
 		panic(err)
 	}
 	req.Host = host
+	if rc.hostless {
+		req.Host = ""
+	}
 	if getBody {
 		req.GetBody = func() (io.ReadCloser, error) { return http.NoBody, nil }
 	}
@@ -110,6 +127,28 @@ func (rc *realClient) do(w *wire, host string, getBody bool, kind, desc string) 
 					"attack_kind": kind, "attack_variant": desc, "oracle_reason": res.v.reason, "round_trips": logDump(w.log)})
 		} else if res.v.how == "sig" {
 			rc.tokenPeer[host] = id
+		} else if res.v.how == "token-cache" {
+			// the token the client presents stands for the handshake in which it was issued: the id
+			// reported on its strength is the one proven THEN
+			for _, ex := range w.log {
+				for _, tok := range looseParams(ex.authz)["bearer"] {
+					if under, ok := rc.tokenIssuedUnder[tok]; ok && under != id {
+						rc.sc.bump(&rc.sc.nviol)
+						rc.sc.r.Violation("client-accept/token-was-issued-under-another-proven-identity/"+kind, rc.sc.caseID,
+							fmt.Sprintf("client %s reports server id %s for %q on the strength of a bearer token that was issued in a handshake in which %s proved its identity [%s %s]", rc.id.name, id, host, under, kind, desc),
+							map[string]any{"client": rc.id.name, "hostname": host, "reported_server": id.String(), "token_issued_under": under.String(), "attack_kind": kind, "attack_variant": desc, "round_trips": logDump(w.log)})
+					}
+				}
+			}
+		}
+	}
+	if proven := provenIn(w.log, rc.id, host, rc.seen); len(proven) == 1 {
+		for _, ex := range w.log {
+			for _, tok := range looseParams(ex.hdr.Values("Authentication-Info"))["bearer"] {
+				if _, ok := rc.tokenIssuedUnder[tok]; !ok {
+					rc.tokenIssuedUnder[tok] = proven[0]
+				}
+			}
 		}
 	}
 	for _, ex := range w.log {
@@ -839,6 +878,42 @@ func (sc *scen) clientCase(host string, cl, evilID, otherClient *ident, flow str
 		book("token-cache", tc.do(&wire{handler: honest(E)}, host, true, "token-cache", "evil-server-refuses-token-and-handshakes"))
 		book("token-cache", tc.do(&wire{handler: honest(E)}, other, true, "token-cache", "other-hostname/evil-server"))
 	}
+	// 7. partial failure: the client holds a token of H; then E sits on the path, refuses the token and
+	// proves ITS identity - and one round trip of that call breaks. Whatever the call left in the client's
+	// token cache, the next call must not report H on the strength of anything E issued.
+	for failAt := 1; failAt <= 3; failAt++ {
+		pf := newRealClient(sc, cl, 0)
+		if res := pf.do(&wire{handler: honest(H)}, host, true, "valid", "first-contact"); res.err != nil {
+			break
+		}
+		res := pf.do(&wire{handler: func(s int, req *http.Request) *http.Response {
+			if s == failAt {
+				return nil
+			}
+			resp, _ := forward(E, req, "", nil)
+			return resp
+		}}, host, true, "broken-round-trip", fmt.Sprintf("evil-server-handshakes/round-trip-%d-fails", failAt))
+		if res.err != nil {
+			sc.count("cli_calls_failed_by_a_broken_round_trip")
+		}
+		book("broken-round-trip", res)
+		book("broken-round-trip", pf.do(&wire{handler: honest(E)}, host, true, "broken-round-trip", fmt.Sprintf("call-after-round-trip-%d-failed/evil-server", failAt)))
+		book("broken-round-trip", pf.do(&wire{handler: honest(H)}, host, true, "broken-round-trip", fmt.Sprintf("call-after-round-trip-%d-failed/honest-server", failAt)))
+	}
+	// 8. requests built by hand, without Request.Host: whatever name the client then signs for, an id proven
+	// for one URL host must not be reported for another
+	hl := newRealClient(sc, cl, 0)
+	hl.hostless = true
+	if res := hl.do(&wire{handler: honest(H)}, host, true, "hostless", "first-contact"); res.err == nil {
+		sc.count("cli_hostless_first_contact_accepted")
+	} else {
+		sc.count("cli_hostless_first_contact_refused")
+	}
+	book("hostless", hl.do(&wire{handler: func(s int, req *http.Request) *http.Response {
+		return &http.Response{StatusCode: 200, Header: http.Header{}, Body: io.NopCloser(strings.NewReader("")), Request: req}
+	}}, other, true, "hostless", "other-url-host/stranger-answers-200"))
+	book("hostless", hl.do(&wire{handler: honest(E)}, other, true, "hostless", "other-url-host/evil-server"))
+	book("hostless", hl.do(&wire{handler: honest(H)}, host, true, "hostless", "same-url-host/honest-server"))
 }
 
 // ---------------------------------------------------------------------------------------------
